@@ -1047,7 +1047,7 @@ static void modeTable(int argc, char** argv, Rng& rng)
       for (const auto& text : dictTableTexts(sepc))
       {
         if (dim < 6 && (k++ % 4) != 0) continue; // a quarter of them in the quick tier
-        if (g_sinceReset >= 200) reset("table-read");
+        reset("table-read"); // each read starts from the empty table
         std::string sep(1, sepc);
         bool header = rng.coin();
         int rn = static_cast<int>(rng.below(4)) - 1;
@@ -1059,8 +1059,6 @@ static void modeTable(int argc, char** argv, Rng& rng)
         });
         if (back) t = *back;
         emit(ev("TabRead", r).kv("text", asc(text)).kv("sep", asc(sep)).kv("header", header).kv("rn", rn).kv("s", tableProj(t)));
-        tracer().emit(Obj().kv("e", "Reset").kv("what", "table-read"));
-        g_sinceReset = g_sinceReset; // (each read starts from the empty table)
       }
   }
   // (b) seeded histories over the whole public interface (calls that raise included); write -> read from
